@@ -8,7 +8,9 @@ EXPLANATION = (
     "single- and double-character operator tables with their look-ahead characters, the keyword/type-keyword table "
     "(delta may additionally reserve `return`), integer suffix tables, escape tables per quote kind with the byte each "
     "simple escape denotes, identifier start/continuation classes, whitespace class, comment opener, builtin `!` rule and "
-    "the catch-all error kind must agree (R1); line accounting of the byte scanner: line_number/start_of_line change only "
+    "the catch-all error kind must agree (R1); span balance of the byte scanner: a path analysis over its MIR shows that on every "
+    "path from the first byte of a token to buffer.push the advance of location.end equals the number of bytes consumed, and every "
+    "inner loop is balanced (R2); line accounting of the byte scanner: line_number/start_of_line change only "
     "in the newline arm and no other consumption can swallow a newline (R3); payload agreement between token-producing "
     "arms and the consumers that unwrap payloads (R4); overflow-checked literal accumulation and E140 conditioned on value "
     "overflow (R5). Equality of the two lexers on all strings and exact spans for every input are not decided.")
@@ -271,7 +273,140 @@ def r5_accumulate(run, F, D):
 def check(run):
     F = run.facts("A")
     A, D = r1_tables(run, F)
+    r2_span_balance(run, F)
     r3_lines(run, F, D)
     r4_payload(run, F, D)
     r5_accumulate(run, F, D)
     run.assume("alpha never sees '\\n' or a '\\r' directly before it: str::lines() strips them (C13.R4 checks the offset bookkeeping)")
+
+
+# ---------------------------------------------------------------------------
+# R2: span balance of the byte scanner (path analysis on MIR)
+
+def r2_span_balance(run, F):
+    """Within one iteration of the scanning loop, on every path from the creation of `location`
+    (end = i + 1, one byte consumed) to `buffer.push(.., location)`, the number of further bytes
+    consumed equals the amount added to `location.end`."""
+    b = F.body(lexq.DELTA_LEX)
+    cfg = mirq.CFG(b)
+    du = mirq.DefUse(cfg)
+    # the token's location local: aggregate TokenLocation assigned to a user variable named `location`
+    loc_local = None
+    start = None
+    for i in sorted(cfg.reach):
+        for s in cfg.blocks[i]["s"]:
+            r = s["r"]
+            if r.get("k") == "Agg" and r.get("adt", "").endswith("TokenLocation") and isinstance(s["d"], int) and \
+                    cfg.mir["locals"][s["d"]].get("name") == "location":
+                loc_local, start = s["d"], i
+    run.require(loc_local is not None, "`location` aggregate not found in the delta lexer")
+
+    def end_delta(stmt):
+        fp = mirq.field_proj(stmt["d"])
+        if not (isinstance(stmt["d"], dict) and stmt["d"].get("l") == loc_local and fp and fp[-1][0] == "end" and len(fp) == 1):
+            return None
+        src = mirq.op_place(stmt["r"].get("a", {})) if stmt["r"].get("k") == "Use" else None
+        if isinstance(src, dict) and src.get("p") and src["p"][0][0] == "f" and src["p"][0][1] == "0":
+            for kind, bi, sj, rv in du.defs.get(src["l"], []):
+                if kind == "stmt" and rv.get("k") == "Bin" and rv["op"] in ("AddWithOverflow", "SubWithOverflow"):
+                    a = mirq.op_place(rv["a"])
+                    c = mirq.op_const(rv["b"])
+                    fa = mirq.field_proj(a) if a is not None else []
+                    if isinstance(a, dict) and a.get("l") == loc_local and fa and fa[-1][0] == "end" and isinstance(c, int):
+                        return c if rv["op"] == "AddWithOverflow" else -c
+        return "unknown"
+    edges = []
+    unknown = []
+    consumers = ("<std::iter::Peekable<I> as std::iter::Iterator>::next", "std::iter::Peekable::next_if")
+    for u in sorted(cfg.reach):
+        w = 0
+        for s in cfg.blocks[u]["s"]:
+            d = end_delta(s)
+            if d == "unknown":
+                unknown.append(s.get("l"))
+            elif d is not None:
+                w += d
+        t = cfg.term(u)
+        extra = {}
+        if t["k"] == "Call" and mirq.call_target(t) in consumers:
+            sw = mirq.enum_switch_after_call(cfg, u)
+            if sw is not None and 1 in sw[0]:
+                extra_edge = (t["to"], sw[0][1])
+                edges.append(("some", extra_edge))
+            else:
+                w -= 1   # result discarded: follows a successful peek()
+        for v in cfg.succ[u]:
+            edges.append((u, v, w))
+    some_edges = set(e[1] for e in edges if e[0] == "some")
+    E = []
+    for e in edges:
+        if e[0] == "some":
+            continue
+        u, v, w = e
+        if (u, v) in some_edges:
+            w -= 1
+        if v == start:
+            continue   # next iteration: a new location
+        E.append((u, v, w))
+    run.ob("R2-SPAN-BALANCE", "all updates of location.end are +=/-= constants", not unknown, F.where(b),
+           "location.end is modified in a way the analysis cannot follow at lines %s" % unknown[:5])
+    pushes = [i for i, t in cfg.calls() if mirq.call_target(t) == "delta::lexer::tokens::TokensBuffer::push"]
+    run.require(len(pushes) == 1, "expected one buffer.push call in the scanner (%d)" % len(pushes))
+    # only blocks from which buffer.push is still reachable within this iteration matter
+    rev = {}
+    for u, v, w in E:
+        rev.setdefault(v, []).append(u)
+    co = set()
+    st = [pushes[0]]
+    while st:
+        x = st.pop()
+        if x in co:
+            continue
+        co.add(x)
+        st.extend(rev.get(x, []))
+    E = [(u, v, w) for u, v, w in E if u in co and v in co]
+    n = len(cfg.reach)
+    for mode, better in (("max", lambda a, c: a > c), ("min", lambda a, c: a < c)):
+        dist = {start: 0}
+        parent = {}
+        changed_edge = None
+        for _ in range(n + 2):
+            changed_edge = None
+            for u, v, w in E:
+                if u in dist:
+                    nd = dist[u] + w
+                    if v not in dist or better(nd, dist[v]):
+                        dist[v] = nd
+                        parent[v] = u
+                        changed_edge = (u, v)
+            if changed_edge is None:
+                break
+        if changed_edge is not None:
+            v = changed_edge[1]
+            for _ in range(n):
+                v = parent[v]
+            cyc = [v]
+            x = parent[v]
+            while x != v and len(cyc) <= n:
+                cyc.append(x)
+                x = parent[x]
+            lines = sorted(set(cfg.term(x)["l"] for x in cyc))
+            run.ob("R2-SPAN-BALANCE", "loop %s" % mode, False, "%s:%s" % (F.rel(b["file"]), lines[:6]),
+                   "an inner scanning loop consumes bytes and advances location.end by different amounts per iteration (lines %s): the token's span "
+                   "no longer covers exactly its bytes" % lines[:8], sample={"cycle_lines": lines[:12]})
+            continue
+        val = dist.get(pushes[0])
+        path = []
+        x = pushes[0]
+        g = 0
+        while x in parent and g < 400:
+            path.append(cfg.term(parent[x])["l"])
+            x = parent[x]
+            g += 1
+        run.ob("R2-SPAN-BALANCE", "%s over paths to buffer.push" % mode, val == 0, F.where(b, cfg.term(pushes[0])),
+               "%s over all paths of (location.end advance - bytes consumed) from the first byte of a token to buffer.push is %s; it must be 0 "
+               "so that every token's span covers exactly the bytes consumed for it" % (mode, val),
+               sample={"mode": mode, "value": val, "witness_lines": sorted(set(path))[:20]})
+    run.note_analysed("R2 blocks", n)
+    run.note_analysed("R2 weighted edges", len(E))
+    run.assume("R2: a bare `iter.next();` follows a successful `iter.peek()` and therefore consumes exactly one byte; all CFG paths are treated as feasible")
